@@ -8,6 +8,7 @@ import QRV.Model.Micro
 import QRV.Model.RMQR
 import QRV.Spec.Bits
 import QRV.Model.Render
+import QRV.Spec.Symbol
 /-
 Line-protocol driver over the executable model: one operation per input line, one canonical
 result per output line.  The Go harness (harness/main) reads the same lines and calls the real
@@ -57,6 +58,48 @@ def showQR (q : Sym.QRCode) : String :=
   s!"{q.version} {q.level} {q.mask} {showSegs q.segments}"
 
 def showBuf (b : Bits.Buffer) : String := s!"{b.len} {hexOf b.buf.toList}"
+
+/-! ### the declarative QR symbol (`Spec/Symbol.lean`), evaluated: used to validate the SPECIFICATION
+against the implementation (`bin/check C02`); the error-correction codewords are taken from the model's
+encoder and CHECKED against the specification's codeword condition -/
+def specSymbolQR (q : Sym.QRCode) (m : Nat) : String := Id.run do
+  let v := q.version.toNat
+  let l := q.level.toNat
+  let n := Spec.Patterns.QR.size v
+  let st := Spec.Symbol.QR.stream q
+  if st.length != 8 * Spec.Tables.dataCodewords v l then return "spec-stream-length"
+  let data := Spec.Bits.pack st
+  let mut blks : Array (List Nat × List Nat) := #[]
+  let mut rest := data
+  for (d, e) in Spec.Symbol.QR.blockShapes v l do
+    let dd := rest.take d
+    rest := rest.drop d
+    match RS.parity e dd with
+    | .ok par =>
+      if par.length != e then return "spec-parity-length"
+      if !((List.range e).all fun i => Spec.RS.evalS (dd ++ par) (Spec.GF.pow2 i) == 0) then return "spec-parity-mismatch"
+      blks := blks.push (dd, par)
+    | _ => return "spec-parity-failed"
+  if !rest.isEmpty then return "spec-shapes"
+  let bits := (Spec.Bits.unpack (Lemmas.RT.ilvList blks.toList)).toArray
+  let coords := Spec.Symbol.QR.dataCoords v
+  if !(coords.all fun c => c.1 < n && c.2 < n) then return "spec-coords"
+  let mut img := Bitmap.Image.new 0 0 n n
+  for y in [0:n] do
+    for x in [0:n] do
+      if Spec.Patterns.QR.isFunction v x y && Spec.Symbol.QR.functionModule v l m x y then
+        match img.setBinary x y true with
+        | .ok i => img := i
+        | _ => return "spec-set"
+  let mut k := 0
+  for (x, y) in coords do
+    let b := (bits[k]?.getD false) ^^ Spec.Patterns.QR.maskCond m y x
+    if b then
+      match img.setBinary x y true with
+      | .ok i => img := i
+      | _ => return "spec-set"
+    k := k + 1
+  return "ok " ++ img.render
 
 /-! ### bit-buffer operation sequences -/
 
@@ -155,6 +198,8 @@ def step (toks : List String) : String :=
   | ["bmp.pointmicro", i] => ((parseImage i).pointMicro).render showNat
   | "qr.enc" :: v :: l :: m :: _ :: segs =>
     (QR.encodeToBitmap { version := v.toInt!, level := l.toInt!, mask := m.toInt!, segments := parseSegs segs }).render Bitmap.Image.render
+  | "qr.spec" :: v :: l :: m :: _ :: segs =>
+    specSymbolQR { version := v.toInt!, level := l.toInt!, mask := m.toInt!, segments := parseSegs segs } m.toNat!
   | "qr.segs" :: v :: l :: _ :: segs =>
     (QR.encodeSegments { version := v.toInt!, level := l.toInt!, mask := 0, segments := parseSegs segs } {}).render showBuf
   | "qr.bits" :: v :: l :: _ :: segs =>
